@@ -284,7 +284,7 @@ impl TemplatedFileInner {
     /// Verification hook (only with `--cfg sqruff_verif`): the raw slices as
     /// (source_idx, slice_type, byte length).
     #[cfg(sqruff_verif)]
-    pub fn verif_raw_sliced(&self) -> Vec<(usize, String, usize)> {
+    pub fn verif_raw_sliced_idx(&self) -> Vec<(usize, String, usize)> {
         self.raw_sliced
             .iter()
             .map(|r| (r.source_idx, r.slice_type.clone(), r.raw.len()))
